@@ -1,5 +1,5 @@
 CONSTANTS
-  MaxSeq = 8
+  MaxSeq = 10
   CovDen = 6
   Lip = "2"
   Fs <- FsThorough
